@@ -1,7 +1,39 @@
-(* Observation commands: filled in by the corresponding property work; definitions only. *)
+(* Observation command of the e-mail domain (C18): e.parse = the (raw, unparsed) pair parse_email returns, computed by the model from
+   what the `email` package delivered.  Definitions only.
+
+   Tokens (one per argument, first character = tag):
+     H<name>   a header, name as spelled          V<value> its value, every chunk valid UTF-8     W<value> its value, some chunk not UTF-8
+     Y<text>   the payload _get_payload returned  Z<text>  _get_payload raised ValueError; <text> renders the object filed instead
+   Other tags (the document itself, for the implementation side) are ignored. *)
 From Coq Require Import List NArith Bool String.
 Import ListNotations.
-Require Import Show.
+Require Import Show MetaBase MetaShow EmailModel.
 Open Scope N_scope.
 
-Definition run_email (cmd : list N) (args : list (list N)) : option (list N) := None.
+Record epstate := { ep_items : list item; ep_name : list N; ep_payload : payload }.
+Definition ep_step (st : epstate) (tok : list N) : epstate :=
+  match tok with
+  | [] => st
+  | tag :: body =>
+      if tag =? 72 then {| ep_items := ep_items st; ep_name := body; ep_payload := ep_payload st |}
+      else if tag =? 86 then {| ep_items := ep_items st ++ [{| i_name := ep_name st; i_val := body; i_valid := true |}]; ep_name := ep_name st; ep_payload := ep_payload st |}
+      else if tag =? 87 then {| ep_items := ep_items st ++ [{| i_name := ep_name st; i_val := body; i_valid := false |}]; ep_name := ep_name st; ep_payload := ep_payload st |}
+      else if tag =? 89 then {| ep_items := ep_items st; ep_name := ep_name st; ep_payload := POk body |}
+      else if tag =? 90 then {| ep_items := ep_items st; ep_name := ep_name st; ep_payload := PErr body |}
+      else st
+  end.
+Definition ep_parse (toks : list (list N)) : epstate := fold_left ep_step toks {| ep_items := []; ep_name := []; ep_payload := POk [] |}.
+
+Definition show_rawval (v : rawval) : list N :=
+  match v with RStr s => show_s s | RList l => show_list l | RDict d => show_dict d end.
+Definition show_uval (u : uval) : list N := match u with UStr s => show_s s | UOpaque s => [63] ++ show_s s end.
+Definition show_dicts (d : dicts) : list N :=
+  let '(raw, unparsed) := d in
+  join [59] (map (fun e => show_s (fst e) ++ [61] ++ show_rawval (snd e)) (sort_by fst raw)) ++ bar ++
+  join [59] (map (fun e => show_s (fst e) ++ [61] ++ [91] ++ join [44] (map show_uval (snd e)) ++ [93]) (sort_by fst unparsed)).
+
+Definition obs_parse (args : list (list N)) : list N :=
+  let st := ep_parse args in show_dicts (post_email (ep_items st) (ep_payload st)).
+
+Definition run_email (cmd : list N) (args : list (list N)) : option (list N) :=
+  if seqb cmd (asc "e.parse") then Some (obs_parse args) else None.
